@@ -4,6 +4,7 @@ import re
 from fractions import Fraction
 
 from . import core, problems, solverrec
+from . import specs as specs_mod
 from .core import cz, cbool, clist, cseq
 from .specs import cq, exact, rdna
 
@@ -42,10 +43,11 @@ def snapshot(problem):
     n_failed = int(m.group(1)) if m else 0
     oevs = problem.objectives_evaluations()
     total = oevs.scores_sum() if problem.objectives else 0
+    direct_total = float(problem.objective_scores_sum()) if problem.objectives else 0.0
     otext = problem.objectives_text_summary().split("\n")[0] if problem.objectives else ""
     parts = [(float(e.specification.boost), float(e.score)) for e in oevs.evaluations]
     return dict(cur=cur, orig=orig, n_edits=n_edits, feats=feats, scores=[str(x) for x in scores], success=success,
-                n_failed=n_failed, total=float(total), total_text=otext, parts=parts,
+                n_failed=n_failed, total=float(total), direct_total=direct_total, total_text=otext, parts=parts,
                 passes=[bool(e.passes) for e in evs.evaluations])
 
 
@@ -57,6 +59,9 @@ def impl_case(case):
     p = json.loads(pj)
     try:
         problem = problems.build_problem(p)
+        if p.get("circular"):
+            problem = dc.CircularDnaOptimizationProblem(p["seq"], constraints=[specs_mod.build_spec(d) for d in p["constraints"]],
+                                                        objectives=[specs_mod.build_spec(d) for d in p["objectives"]], logger=None)
     except Exception as e:
         return dict(skipped="%s: %s" % (type(e).__name__, str(e)[:60]))
     solverrec.apply_settings(problem, p["cfg"])
@@ -115,6 +120,8 @@ def check_snapshot(s):
         exp = sum(b * sc for b, sc in s["parts"])
         if abs(exp - s["total"]) > 1e-9 * (1 + abs(exp)):
             return "objectives total %r is not the boost-weighted sum %r" % (s["total"], exp)
+        if abs(exp - s["direct_total"]) > 1e-9 * (1 + abs(exp)):
+            return "objective_scores_sum() = %r is not the boost-weighted sum %r of the listed scores" % (s["direct_total"], exp)
         if s["total_text"] and fmt_score(s["total"]).strip() not in s["total_text"]:
             return "text summary %r does not show the (rounded) total %r" % (s["total_text"], fmt_score(s["total"]))
     return None
@@ -158,6 +165,19 @@ def gen_cases(rng, tier):
     for _ in range(N):
         p = problems.gen_problem(rng, with_objectives=rng.random() < 0.6, allow_custom=True, custom_kinds=problems.SOUND_CUSTOM)
         hist = tuple(rng.choice(["resolve", "optimize", "objective", "assign", "assign", "restore"]) for _ in range(rng.randint(1, 5)))
+        if rng.random() < 0.25:
+            # the same reports on a circular problem (evaluations wrap around the origin)
+            # (the circular class supports located pattern / GC / keep specifications: family of C13)
+            from . import c13
+            p = c13.gen_circular(rng)
+            objs = []
+            if rng.random() < 0.7:
+                objs.append(("AvoidPattern", problems.kw(pattern=rng.choice(c13.PATTERNS), boost=rng.choice([1.0, 0.5, 2.0]), location=None)))
+            if rng.random() < 0.6 or not objs:
+                objs.append(("EnforceGCContent", problems.kw(target=rng.choice([0.25, 0.5]), window=8, boost=rng.choice([1.0, 4.0]), location=None)))
+            p["objectives"] = tuple(objs)
+            p["circular"] = True
+            hist = tuple(h for h in hist if h != "objective") or ("assign",)
         cases.append(("history", json.dumps(p, sort_keys=True), hist))
     return cases, {}
 
